@@ -255,12 +255,13 @@ carry!(c24_q_keepalive_c_response, ka, 2, 3, 1, 2);
 fn c24_q_keepalive_client_done() {
     let st = ka::state_k(any_kind(0, 2));
     let msg = ka::Message::Done;
-    kani::cover!(ka::excluded(ka::cls(&st), &msg), "this is the pair excluded from c24_q_keepalive");
+    kani::assume(ka::excluded(ka::cls(&st), &msg)); // exactly the pair excluded from c24_q_keepalive
     let r = st.apply(&msg);
     assert!(r.is_ok(), "spec: Client --Done--> Done is accepted");
     if let Ok(n) = &r {
         assert!(ka::cls(n) == ka::Cls::Done, "spec: Client --Done--> Done ends in Done");
     }
+    kani::cover!(r.is_ok(), "accepted (reached only once the finding is repaired)");
     core::mem::forget(r);
 }
 
@@ -380,12 +381,13 @@ fn c24_q_peersharing_idle_done() {
     any_vlen();
     let st = ps::state_k(any_kind(0, 2));
     let msg = ps::Message::Done;
-    kani::cover!(ps::excluded(ps::cls(&st), &msg), "this is the pair excluded from c24_q_peersharing");
+    kani::assume(ps::excluded(ps::cls(&st), &msg)); // exactly the pair excluded from c24_q_peersharing
     let r = st.apply(&msg);
     assert!(r.is_ok(), "spec: Idle --Done--> Done is accepted");
     if let Ok(n) = &r {
         assert!(ps::cls(n) == ps::Cls::Done, "spec: Idle --Done--> Done ends in Done");
     }
+    kani::cover!(r.is_ok(), "accepted (reached only once the finding is repaired)");
     core::mem::forget(r);
     core::mem::forget(st);
 }
@@ -730,13 +732,14 @@ macro_rules! txsub_case {
             any_vlen();
             let st = tx::state_k($sk);
             let msg: tx::Message = $msg;
-            kani::cover!(tx::excluded(tx::cls(&st), &msg), "this is one of the pairs excluded from c24_q_txsubmission");
+            kani::assume(tx::excluded(tx::cls(&st), &msg)); // exactly one of the pairs excluded from c24_q_txsubmission
             let want = tx::spec(tx::cls(&st), &msg);
             let r = st.apply(&msg);
             assert!(r.is_ok() == want.is_some(), "accepted exactly when the specification allows the message in this state");
             if let Ok(n) = &r {
                 assert!(Some(tx::cls(n)) == want, "next state class is the prescribed one");
             }
+            kani::cover!(r.is_ok(), "accepted with the prescribed next state (reached only once the finding is repaired)");
             core::mem::forget(r);
             core::mem::forget(st);
             core::mem::forget(msg);
